@@ -120,7 +120,7 @@ class Report:
         ev["coverage"].update(self.extra)
         ev["coverage"]["known_findings_hit"] = self.known
         os.makedirs(EVIDENCE, exist_ok=True)
-        with open(os.path.join(EVIDENCE, "%s.json" % self.prop), "w") as fh:
+        with open(os.path.join(EVIDENCE, "%s%s.json" % (self.prop, os.environ.get("BT_VERIF_EVIDENCE_SUFFIX", ""))), "w") as fh:
             json.dump(ev, fh, indent=1, default=str)
         if self.machinery_errors:
             for m in self.machinery_errors:
